@@ -14,9 +14,24 @@ package event
 //@ ghost pred fallbackNotYetValid() bool
 //@ ghost pred firstCallExpected() bool
 
+// Signers of an accepted main transaction: exactly the expected number, and the second one
+// (right after the Proxy contract, whatever follows it) is the current Alphabet
+// multi-signature account.
+//@ ghost pred alphabetAccountMatches() bool
+//@ callrule c34_alphabet_signer_position in (preparator).validateCosigners
+//@   property C34
+//@   callee (util.Uint160).Equals
+//@   pureeffect
+//@   requires [alphabet_account_is_compared_with_the_second_signer] self == s[1].Account
+//@   defines result == alphabetAccountMatches()
+//@ callrule c34_cosigner_check_collaborators in (preparator).validateCosigners
+//@   property C34
+//@   callee smartcontract.CreateMultiSigRedeemScript, fmt.Errorf, hash.Hash160
+//@   pureeffect
 //@ func (preparator).validateCosigners
 //@   property C34
 //@   defines err == nil ==> cosignersValid()
+//@   ensures [expected_number_of_signers_and_the_alphabet_account_second] err == nil ==> len(s) == expected && alphabetAccountMatches()
 //@ func (preparator).validateAttributes
 //@   property C34
 //@   defines err == nil ==> notaryAttributeValid()
